@@ -11,6 +11,8 @@
     restricted to `key = value` (by `partition_fiber`, since aggregates only read the rows).
   The order of group rows under ORDER BY and the rendering are decided by the correspondence.
 -/
+import Fsel.Lemmas.Num
+import Fsel.Lemmas.CellOrder
 import Fsel.Model.Agg
 
 namespace Fsel.C08
@@ -255,5 +257,35 @@ theorem bufferSum_eq (rows : List Memo) (col : Str) :
       cases h2 : parseUsize? v with
       | none => simp [h2, ih]
       | some n => simp [h2, ih]
+
+/-! ### ORDER BY over the group rows: the comparison -/
+
+open CellL in
+/-- **the comparison of group rows is mirror-symmetric** (D80 fix): for every key list, every direction list and
+    every two rows — whatever mix of numbers and text their cells hold — comparing them the other way round gives
+    the opposite answer.  So the comparison is total, never answers "less" in both directions, and two rows are tied
+    in one direction exactly when they are tied in the other (what `sort_by` needs besides transitivity, which the
+    sortedness oracle and the correspondence check on mixed columns) -/
+theorem grouped_cmp_mirror (idxs : List Nat) (asc : List Bool) (a b : List (Str × Str)) :
+    groupedCmp idxs asc b a = oswap (groupedCmp idxs asc a b) := by
+  induction idxs generalizing asc with
+  | nil => simp [groupedCmp, oswap]
+  | cons i is ih =>
+    cases asc with
+    | nil => simp [groupedCmp, oswap]
+    | cons d ds =>
+      simp only [groupedCmp]
+      rw [cellCmp_swap ((a[i]?.map (·.2)).getD []) ((b[i]?.map (·.2)).getD [])]
+      cases hc : cellCmp ((a[i]?.map (·.2)).getD []) ((b[i]?.map (·.2)).getD []) <;> cases d <;>
+        simp [oswap, ordRev, ih ds]
+
+/-- numbers sort before everything that is no number, whatever their spellings: a cell that reads as a number
+    is below a cell that does not, and the other way round above (`9 < 7z`, `10 < 7z`, never `7z < 9`) -/
+theorem number_before_text (x y : Str) (u : Num) (hx : parseF64? x = some u) (hy : parseF64? y = none) :
+    cellCmp x y = .lt ∧ cellCmp y x = .gt := by
+  constructor <;> (unfold cellCmp; simp only [hx, hy])
+
+/-- the premises are met by `9` / `10` against `7z`: the second is no number -/
+example : parseF64? (ofS "7z") = none ∧ parseF64? (ofS "txt") = none := by decide
 
 end Fsel.C08
